@@ -281,6 +281,41 @@ void verif_vm_audit(VmState *vm, const char *where) {
                     h->obj_type, h->ref_count, m.e[i].indeg, where, vm->ip, vm->current_fn);
         }
     }
+    /* the dual of an undercount: a live (registered) object that no root reaches any more carries a count that
+     * nothing owns - it can never be released.  At an instruction boundary every temporary is on the operand
+     * stack (a root), so on a correct VM the registry and the reachable set have the same size.  Reported once
+     * per object, when the number of unreachable objects grows. */
+    {
+        VerifReg *r = vm->heap.verif_reg;
+        uint64_t live = r ? r->count : 0;
+        uint64_t unreach = live > m.count ? live - m.count : 0;
+        if (unreach > vm->verif_audit_unreach && r) {
+            uint64_t fresh = 0; unsigned otype = 0, orc = 0;
+            for (uint32_t i = 0; i < r->cap; i++) {
+                void *p = r->slots[i];
+                if (!p || p == (void *)1) continue;
+                uint32_t j = m.cap ? (va_hash(p) & (m.cap - 1)) : 0; bool reached = false;
+                while (m.cap && m.e[j].obj) { if (m.e[j].obj == p) { reached = true; break; } j = (j + 1) & (m.cap - 1); }
+                if (reached) continue;
+                bool known = false;
+                for (uint32_t k = 0; k < vm->verif_audit_orphan_count; k++) if (vm->verif_audit_orphans[k] == p) { known = true; break; }
+                if (known) continue;
+                if (vm->verif_audit_orphan_count >= vm->verif_audit_orphan_cap && vm->verif_audit_orphan_cap < (1u << 16)) {
+                    vm->verif_audit_orphan_cap = vm->verif_audit_orphan_cap ? vm->verif_audit_orphan_cap * 2 : 64;
+                    vm->verif_audit_orphans = realloc(vm->verif_audit_orphans, vm->verif_audit_orphan_cap * sizeof(void *));
+                }
+                if (vm->verif_audit_orphan_count < vm->verif_audit_orphan_cap) vm->verif_audit_orphans[vm->verif_audit_orphan_count++] = p;
+                if (!fresh) { otype = ((VmHeapHeader *)p)->obj_type; orc = ((VmHeapHeader *)p)->ref_count; }
+                fresh++;
+            }
+            if (fresh) {
+                vm->verif_audit_orphan_records++;
+                fprintf(VA_OUT(vm), "VERIF-AUDIT kind=orphan type=%u rc=%u new=%llu total=%llu where=%s ip=%u fn=%u\n",
+                        otype, orc, (unsigned long long)fresh, (unsigned long long)unreach, where, vm->ip, vm->current_fn);
+            }
+        }
+        vm->verif_audit_unreach = unreach;
+    }
     vm->verif_audits++; vm->verif_audit_objs += m.count;
     if (vm->heap.verif_reg && vm->heap.verif_reg->count > vm->verif_audit_peak_live) vm->verif_audit_peak_live = vm->heap.verif_reg->count;
     free(m.e); free(m.work);
@@ -288,9 +323,11 @@ void verif_vm_audit(VmState *vm, const char *where) {
 static void verif_audit_summary(VmState *vm) {
     VerifReg *r = vm->heap.verif_reg;
     if (r && r->n_bad_unreg) fprintf(VA_OUT(vm), "VERIF-AUDIT kind=double-release count=%llu site=%s\n", (unsigned long long)r->n_bad_unreg, r->last_bad_site ? r->last_bad_site : "?");
-    fprintf(VA_OUT(vm), "VERIF-AUDIT kind=summary audits=%llu objs_seen=%llu maxdeg=%llu violations=%llu registered=%llu unregistered=%llu live=%u peak_live=%llu bad_unreg=%llu\n",
+    fprintf(VA_OUT(vm), "VERIF-AUDIT kind=summary audits=%llu objs_seen=%llu maxdeg=%llu violations=%llu registered=%llu unregistered=%llu live=%u peak_live=%llu bad_unreg=%llu orphans=%llu orphan_records=%llu\n",
             (unsigned long long)vm->verif_audits, (unsigned long long)vm->verif_audit_objs, (unsigned long long)vm->verif_audit_maxdeg, (unsigned long long)vm->verif_audit_viol,
-            (unsigned long long)(r ? r->n_reg : 0), (unsigned long long)(r ? r->n_unreg : 0), r ? r->count : 0, (unsigned long long)vm->verif_audit_peak_live, (unsigned long long)(r ? r->n_bad_unreg : 0));
+            (unsigned long long)(r ? r->n_reg : 0), (unsigned long long)(r ? r->n_unreg : 0), r ? r->count : 0, (unsigned long long)vm->verif_audit_peak_live, (unsigned long long)(r ? r->n_bad_unreg : 0),
+            (unsigned long long)vm->verif_audit_unreach, (unsigned long long)vm->verif_audit_orphan_records);
+    free(vm->verif_audit_orphans); vm->verif_audit_orphans = NULL; vm->verif_audit_orphan_count = vm->verif_audit_orphan_cap = 0;
     if (vm->verif_audit_log) { fclose((FILE *)vm->verif_audit_log); vm->verif_audit_log = NULL; }
 }
 #endif
